@@ -547,6 +547,16 @@ register_function(lambda lo, hi: Array(list(range(lo, hi+1))),
                   "range",
                   (Integral, Integral),
                   "Returns an array of the integers lo, lo+1, ..., hi.")
+def lazy_range(lo, hi):
+    # A lazy factorial or binomial is an integer too: resolve it.
+    lo = resolve_combinatoric(lo) if isinstance(lo, Combinatoric) else lo
+    hi = resolve_combinatoric(hi) if isinstance(hi, Combinatoric) else hi
+    if not (isinstance(lo, Integral) and isinstance(hi, Integral)):
+        raise FunctionArgError("Bounds of a range must be integers.")
+    return Array(list(range(lo, hi+1)))
+for sig in ((Combinatoric, Integral), (Integral, Combinatoric), (Combinatoric, Combinatoric)):
+    register_function(lazy_range, "range", sig)
+
 def ka_range(lo, hi, step):
     if not dispatch("<=", (lo, hi)):
         raise FunctionArgError(f"Lower bound of range (was {lo}) must be less than or equal to upper bound (was {hi}).")
